@@ -217,6 +217,13 @@ func TestVerifC01_MapModel(t *testing.T) {
 					s.remove(t, false)
 				},
 				"commit": s.commit,
+				"rootHash": func(t *rapid.T) {
+					// RootHash() without Commit caches hashes on dirty nodes; later updates must invalidate them
+					// (a stale hash becomes the storage key of the node at the next commit)
+					s.log.Add("H")
+					s.c.NoPanic("C01:roothash-panic", func() { _, _ = s.tr.RootHash() })
+					s.c.Class("op:roothash-midway")
+				},
 				"leaves": func(t *rapid.T) {
 					if len(s.commits) == 0 {
 						t.Skip("no commit yet")
